@@ -2,6 +2,7 @@ import PyramidModel.RouterModel
 import PyramidModel.Lemmas.Route
 import PyramidModel.Lemmas.Traversal
 import PyramidModel.ViewLookupSpec
+import PyramidModel.Lemmas.ExcViewSpec
 /-!
 X01 — the declarative reading of one request through the router, written on the *specs* of the components
 (C01 `qualifies`, C02 `specTraverser`, C03 `candidates` / `anyRegistered`) and on nothing of their algorithms:
@@ -68,10 +69,10 @@ def specRender (app : App) (r0 : ViewLookup.Request) (combinedSro : List Nat) (e
   | .none => .propagates e
 
 /-- step 4, what the exception view's body sees when one runs: the exception as context, as `request.exception` and in
-`request.exc_info`, and no `response` attribute -/
+`request.exc_info`, and no `response` attribute (C14's `seenOf`, for the kind of callable the statement registered) -/
 def specSeen (app : App) (r0 : ViewLookup.Request) (combinedSro : List Nat) (e : Exc) : Option ExcView.Seen :=
   match specView app clsExc (.exc e.sro) (ExcView.excRequest r0 e combinedSro) with
-  | .response _ => some ⟨e.id, some e.id, some e.id, none⟩
+  | .response t => some (ExcView.seenOf e (ExcView.kindOf app.stmts t))
   | _ => none
 
 /-- what leaves the router when the request attributes are `a` and the handler answered / raised `main` -/
